@@ -28,7 +28,7 @@ ASSUMPTIONS = ["finite scores of moderate magnitude, both classes non-empty",
 
 
 def n_cases(tier):
-    return 500 if tier == "quick" else 10000
+    return 4000 if tier == "quick" else 32000
 
 
 def gen_one(rng, i, tier):
@@ -61,8 +61,53 @@ def gen_one(rng, i, tier):
         p2, n2 = [a * x + b for x in pos], [a * x + b for x in neg]
         if len(set(p2 + n2)) == len(p2) + len(n2):
             pos, neg, narrow = p2, n2, [a, b]
+    dt = None
+    if narrow is None and rng.random() < 0.18:
+        # integer-valued score arrays, also unsigned (differences of unsigned scores wrap around): the order type of the
+        # data is kept (values -> ranks), so separated / touching / tie-free stay what they were
+        dt = rng.choice(["u1", "u2", "i8", "u1"])
+        if rng.random() < 0.5:
+            # perfectly separated classes in the direction of the shortcut (its midpoint is integer arithmetic on the
+            # scores' own dtype unless the code converts first)
+            allv = sorted(pos + neg)
+            if sc == "pos":
+                neg, pos = allv[:len(neg)], allv[len(neg):]
+            else:
+                pos, neg = allv[:len(pos)], allv[len(pos):]
+            kind = "general"
+        vals = sorted(set(pos + neg))
+        step_ = rng.choice([1, 2, 5])
+        top_ = {"u1": 255, "u2": 65535, "i8": 2 ** 20}[dt]
+        # values up to the top of the dtype's range half of the time (sums / differences of two scores then leave it)
+        off_ = rng.choice([0, 1, 17]) if rng.random() < 0.5 else top_ - step_ * (len(vals) - 1) - rng.choice([0, 1, 3])
+        rank = {v: float(off_ + step_ * k) for k, v in enumerate(vals)}
+        pos, neg = [rank[x] for x in pos], [rank[x] for x in neg]
+    huge = False
+    if kind == "tiefree" and dt is None and rng.random() < 0.12:
+        # enormous declared easy populations around a few hundred overlapping scored samples: "one sample" is then about
+        # 1e-8 on the rate scale, the size of a careless absolute tolerance
+        # Scores on a jittered grid with class runs of length <= 2: within each class consecutive gaps lie between 0.8 and
+        # 3.2 grid steps, and the easy counts are within a factor 1.5 of each other.  The proved slack of the FNR side
+        # (theorem C06_fnr_side_bisect: xtol * (1 + N_neg maxGap(neg) / (N_pos minGap(pos))) + sentinel steps) is then
+        # below the 1e-9 the spec allows, so on these inputs the clean code provably passes; for arbitrary gap ratios at
+        # this population size it does not (known finding, corpus/C06/huge_population_tiny_gap.json).
+        n_ = rng.randint(300, 600)
+        lab, run = [], 0
+        for k in range(n_):
+            want = rng.random() < (0.3 + 0.4 * k / n_)
+            if run >= 2 and lab and lab[-1] == want:
+                want = not want
+            run = run + 1 if lab and lab[-1] == want else 1
+            lab.append(want)
+        grid = [(k + rng.uniform(-0.1, 0.1)) / 16.0 for k in range(n_)]
+        pos, neg = [x for x, l in zip(grid, lab) if l], [x for x, l in zip(grid, lab) if not l]
+        base_ = rng.choice([10 ** 8, 2 * 10 ** 8, 5 * 10 ** 7])
+        ep, en = (base_, base_ * 3 // 2) if rng.random() < 0.5 else (base_ * 3 // 2, base_)
+        if rng.random() < 0.3:
+            ep = en = base_
+        narrow, huge = None, True
     return {"stream": stream, "kind": kind, "pos": pos, "neg": neg, "ep": ep, "en": en, "sc": sc, "ec": ec,
-            "narrow": narrow, "prior": rng.random() < 0.3}
+            "narrow": narrow, "prior": rng.random() < 0.3, "dt": dt, "huge": huge}
 
 
 def nontrivial(inp):
@@ -75,7 +120,12 @@ def build(inp) -> Case:
 
     inp = dict(inp)
     pos, neg, ep, en, sc, ec = inp["pos"], inp["neg"], inp["ep"], inp["en"], inp["sc"], inp["ec"]
-    s = Scores(pos, neg, nb_easy_pos=ep, nb_easy_neg=en, score_class=sc, equal_class=ec)
+    if inp.get("dt"):
+        npdt = {"u1": np.uint8, "u2": np.uint16, "i8": np.int64}[inp["dt"]]
+        s = Scores(np.array(pos, dtype=npdt), np.array(neg, dtype=npdt), nb_easy_pos=ep, nb_easy_neg=en, score_class=sc,
+                   equal_class=ec)
+    else:
+        s = Scores(pos, neg, nb_easy_pos=ep, nb_easy_neg=en, score_class=sc, equal_class=ec)
     pre = []
     if inp.get("prior"):
         # earlier queries on the SAME object (eer() is a query: its result must not depend on the call history)
@@ -99,12 +149,30 @@ def build(inp) -> Case:
     tags = [inp["stream"], inp["kind"], f"cfg={sc},{ec}"]
     if inp.get("narrow"):
         tags.append("narrow-band")
+    if inp.get("dt"):
+        tags.append("dtype=" + inp["dt"])
+    if inp.get("huge"):
+        tags.append("easy>=5e7")
     if inp.get("prior"):
         tags.append("prior-calls")
     if ep or en:
         tags.append("easy")
     if e == 0.0:
         tags.append("eer==0")
+
+    def proved_slack():
+        """c06d_delta of SA/Theorems/C06Delta.lean evaluated on this input (exact rationals): the slack by which
+        theorem C06_fnr_side_bisect bounds |FNR(t) - e| beyond one sample on the bisection path"""
+        P, Ng = sorted(Fraction(x) for x in pos), sorted(Fraction(x) for x in neg)
+        if len(P) < 2 or len(Ng) < 2:
+            return None
+        xtol = Fraction(1, 10**10)
+        max_gap_neg = max(b - a for a, b in zip(Ng, Ng[1:]))
+        min_gap_pos = min(b - a for a, b in zip(P, P[1:]))
+        if min_gap_pos <= 0:
+            return None
+        jump = Fraction(float(np.spacing(float(Ng[0])))) + Fraction(float(np.spacing(float(Ng[-1]))))
+        return xtol + ((len(Ng) + en) * max_gap_neg * xtol + jump) / ((len(P) + ep) * min_gap_pos)
 
     def judge(outs):
         o = outs[0]
@@ -125,8 +193,22 @@ def build(inp) -> Case:
             iss.append(Issue("DISAGREE", "threshold", f"eer threshold impl={t} model={float(mt)}", "eer/threshold"))
         for cl in ("range", "crossing", "zero"):
             if o["spec." + cl] != "1":
+                sig = f"eer/{cl}"
+                extra = ""
+                if cl == "crossing" and tie_free:
+                    # one sample + the slack the theorem proves for the exact model on this very input: a deviation inside
+                    # it is the documented limit of the root finder's absolute tolerance at this population size (known
+                    # finding), anything beyond it is not explained by the code as modelled
+                    d = proved_slack()
+                    n_p, n_n = len(pos) + ep, len(neg) + en
+                    dev_fnr, dev_fpr = abs(Fraction(fnr_t) - Fraction(e)), abs(Fraction(fpr_t) - Fraction(e))
+                    if (d is not None and d > eps and n_p + n_n >= 10**7 and dev_fpr <= Fraction(1, n_n) + eps
+                            and dev_fnr <= Fraction(1, n_p) + d + Fraction(1, 10**12)):
+                        sig = "eer/crossing/within-proved-slack"
+                        extra = (f"; |FNR(t)-e| = {float(dev_fnr * n_p):.3f} samples, proved bound 1 + "
+                                 f"{float(d * n_p):.3f} samples (C06_fnr_side_bisect)")
                 iss.append(Issue("PROPFAIL", cl, f"eer() = ({t}, {e}); fpr(t)={fpr_t}, fnr(t)={fnr_t}, cm(t)={icm}, "
-                                 f"cfg=({sc},{ec}), ep={ep}, en={en}, n_pos={len(pos)}, n_neg={len(neg)}", f"eer/{cl}"))
+                                 f"cfg=({sc},{ec}), ep={ep}, en={en}, n_pos={len(pos)}, n_neg={len(neg)}{extra}", sig))
         return iss
 
     case = Case(ID, inp, [ln], judge, tuple(tags), 0, pre)
